@@ -92,6 +92,19 @@ def generate(rng, tier, index):
         # location differs, the meaning is the same) are already in both cache locations
         plan["preexisting"] = rng.choice(["none", "none", "complete", "moved"])
         plan["moved_where"] = rng.choice(["user", "adjacent", "adjacent", "both"])
+        # after an interrupted TOOL run the tool is run again, to completion, with another
+        # records-per-chunk value, before the usual checks
+        plan["tool_rerun_rpc"] = rng.choice([None, 1, 2, 3, 4, 7, 4096]) if rng.random() < 0.6 \
+            else "no"
+        # request size of the (interrupted) tool run itself: mostly small, so that its scan has
+        # several steps
+        plan["cli_rpc"] = rng.choice([None, 1, 2, 2, 3])
+        if plan["writer"] == "cli" and plan["preexisting"] != "moved" and rng.random() < 0.7:
+            # the tool's protocol may have several steps per image (journal, temp file, marker):
+            # several crash points of one run, at operation granularity
+            plan["ats"] = [plan["at"]] + [{"event": e} for e in
+                                          sorted(rng.sample(range(0, 18), 5))]
+            plan["chunk"] = rng.choice([64, 512, 4096, 1 << 30])
         if plan["preexisting"] == "moved":
             # the old and the new document differ late in the text (stored location): several
             # crash points per run, most of them in the last third
@@ -357,7 +370,7 @@ def run_s0(c, ref):
 
 def _writer(c, kind, image=None):
     if kind == "cli":
-        rc = c.w.cli(c.prod.images[image or 0])
+        rc = c.w.cli(c.prod.images[image or 0], rpc=c.plan.get("cli_rpc"))
         if rc != 0:
             # the tool reports failure through its exit status (it does so for an injected
             # disk-full, and - on the pinned tree - for every product path that contains a space
@@ -474,7 +487,17 @@ def _run_s1_s2_once(c, ref, docs, hashdir, at):
     ctx = {"k": k, "doc_len": len(docs[img]), "writer_outcome": outcome}
     if fired_at:
         ctx["crash_before"] = fired_at
-    if c.default_open_ok(ref, where, **ctx):
+    ok = c.default_open_ok(ref, where, **ctx)
+    if ok and writer == "cli" and plan.get("tool_rerun_rpc", "no") != "no":
+        # "a later successful creation repairs it" - here by the tool itself, with another rpc
+        rc = c.w.cli(c.prod.images[plan["cli_image"]], rpc=plan["tool_rerun_rpc"])
+        c.bump("tool-reruns")
+        if rc == 0:
+            ok = c.default_open_ok(ref, where + ":after-tool-rerun", rerun_rpc=plan["tool_rerun_rpc"],
+                                   **ctx)
+        else:
+            c.bump("cli-exit-status-nonzero")
+    if ok:
         c.repair_ok(ref, where, **ctx)
 
 
